@@ -165,6 +165,69 @@ def _task(args):
     return st, vios, sample
 
 
+def _task_interleave(args):
+    """two fast-packet messages of one PGN whose frames alternate on the bus - same source to two destinations
+    (addressed PGNs), or two sources - through each frame-level format on one decoder: each must come out exactly
+    as the same payload does when delivered pre-assembled"""
+    idxs, seed = args
+    db = refdb.db()
+    vios = []
+    st = {"frames": 0, "decodes": 0, "nontrivial": 0, "agree_decoded": 0, "agree_failed": 0}
+    for di in idxs:
+        defn = db.defs[di]
+        if not defn.fast:
+            continue
+        pgn = defn.pgn
+        pdu1 = ((pgn >> 8) & 0xFF) < 240
+        pa = patterns(defn, seed)
+        pay_a, pay_b = pa[0][1], pa[1][1]
+        if not (0 < len(pay_a) <= 223 and 0 < len(pay_b) <= 223):
+            continue
+        variants = [("two sources", (3, 35, 255), (3, 36, 255))]
+        if pdu1:
+            variants.append(("one source, two destinations", (3, 35, 10), (3, 35, 20)))
+        for vname, (pr_a, src_a, dst_a), (pr_b, src_b, dst_b) in variants:
+            ref_a = attempt(whole_renderings(pr_a, pgn, src_a, dst_a, pay_a)["actisense"], NMEA2000Decoder())
+            ref_b = attempt(whole_renderings(pr_b, pgn, src_b, dst_b, pay_b)["actisense"], NMEA2000Decoder())
+            for seq_a, seq_b in ((1, 2), (4, 4)):
+                fa, fb = wire.fast_frames(seq_a, pay_a, None), wire.fast_frames(seq_b, pay_b, None)
+                order = []
+                for i in range(max(len(fa), len(fb))):
+                    if i < len(fa):
+                        order.append(("a", i))
+                    if i < len(fb):
+                        order.append(("b", i))
+                for name in ("ebyte", "usb", "yd_R", "plain_dash"):
+                    d = NMEA2000Decoder()
+                    got = {"a": None, "b": None}
+                    early = False
+                    for who, i in order:
+                        hdr, frames = ((pr_a, pgn, src_a, dst_a), fa) if who == "a" else ((pr_b, pgn, src_b, dst_b), fb)
+                        r = attempt(single_renderings(*hdr, frames[i])[name], d)
+                        st["decodes"] += 1
+                        if i == len(frames) - 1:
+                            got[who] = r
+                        elif r is not None:
+                            early = True
+                    st["frames"] += 1
+                    st["nontrivial"] += 1
+                    ok = not early and got["a"] == ref_a and got["b"] == ref_b
+                    if ok:
+                        st["agree_decoded"] += 1
+                    elif len(vios) < 40:
+                        which = "early delivery" if early else ("first" if got["a"] != ref_a else "second")
+                        vios.append({"kind": "formats_disagree", "facts": {"definition": defn.id, "mechanism": "interleaved_streams", "variant": vname},
+                                     "signature": f"inter:{pgn}:{defn.id}:{vname}:{name}",
+                                     "detail": f"[PGN {pgn} {defn.id}, {vname}, counters {seq_a}/{seq_b}, frames alternating, through {name}] the {which} message "
+                                               f"differs from its pre-assembled delivery: {str(got['a'] if got['a'] != ref_a else got['b'])[:80]}",
+                                     "case": {"pgn": pgn, "definition": defn.id, "interleave": vname, "seed": seed}})
+    return st, vios, None
+
+
+def _dispatch(t):
+    return _task_interleave(t[1]) if t[0] == "interleave" else _task(t[1])
+
+
 def run(ctx):
     db = refdb.db()
     full = [(pr, s, d) for pr in (0, 3, 7) for s in (0, 1, 254) for d in (0, 37, 255)]
@@ -175,7 +238,9 @@ def run(ctx):
     buckets = [[] for _ in range(nb)]
     for j, i in enumerate(order):
         buckets[j % nb].append(i)
-    results = common.pmap(_task, [(b, grid, ctx.seed) for b in buckets if b])
+    fast = [d.idx for d in db.defs if d.fast]
+    tasks = [("main", (b, grid, ctx.seed)) for b in buckets if b] + [("interleave", (fast[j::16], ctx.seed)) for j in range(16) if fast[j::16]]
+    results = common.pmap(_dispatch, tasks)
     vios, samples = [], []
     tot = {"frames": 0, "decodes": 0, "nontrivial": 0, "agree_decoded": 0, "agree_failed": 0}
     for st, v, s in results:
@@ -191,7 +256,8 @@ def run(ctx):
                 "frame-level renderings x 3 paddings + 3 pre-assembled) renderings; non-trivial = agreeing decoded states that are "
                 "fast-packet or shorter than 8 bytes",
         "samples": samples, "totals": tot, "addressing_grid": len(grid),
-        "bound_completed": f"all {n} definitions x 4 data patterns (mid, max, min, seeded) x {len(grid)} addressings", "exhaustive": True,
+        "bound_completed": f"all {n} definitions x 4 data patterns (mid, max, min, seeded) x {len(grid)} addressings; every fast-packet definition as two interleaved "
+                           "streams (two sources; two destinations for addressed PGNs) x 2 counter pairs x 4 frame-level formats", "exhaustive": True,
     }
     return {"coverage": cov, "violations": vios,
             "assumptions": ["renderings written from the format descriptions (mc/wire.py)",
@@ -203,5 +269,8 @@ def replay(ctx, rep):
     c = rep["case"]
     db = refdb.db()
     defn = db.by_id[(c["pgn"], c["definition"])]
+    if "interleave" in c:
+        st, v, s = _task_interleave(([defn.idx], c.get("seed", 0)))
+        return [x for x in v if x["case"]["interleave"] == c["interleave"]][:1]
     st, v, s = _task(([defn.idx], [tuple(c["addr"])], c.get("seed", 0)))
     return [x for x in v if x["case"]["pattern"] == c["pattern"]][:1]
